@@ -5,3 +5,4 @@ import DrandProofs.C02
 import DrandProofs.C08
 import DrandProofs.C09
 import DrandProofs.C12Cache
+import DrandProofs.C15
